@@ -67,14 +67,14 @@ Qed.
 
 (* textOrTag on a text item followed by a comment or by EOF, once the comments before it are skipped *)
 Lemma tot_text token0 s1 s2 t nx l : skip_comments lf token0 s1 = COk t s2 -> t_typ t = pit_Text ->
-  (t_typ nx = pit_Comment \/ t_typ nx = pit_EOF) -> stream (c_p s2) = nx :: l -> inv (c_p s2) -> (1 <= lf)%nat ->
+  t_typ nx <> pit_Text -> stream (c_p s2) = nx :: l -> inv (c_p s2) -> (1 <= lf)%nat ->
   exists s5, stream (c_p s5) = nx :: l /\ inv (c_p s5) /\
     forall rt, rawtext_run (t_val t) (tis token0 pit_Comment) (tis nx pit_Comment) = Ok rt ->
       tot token0 u_eof s1 = COk (match rt with [] => None | _ => Some (NRawText (t_pos t) rt) end, false) s5.
 Proof.
   intros Hsk Ht Hnx Hs2 Hi2 Hlf.
   assert (Hu : one_of (t_typ t) u_eof = false) by (rewrite Ht; reflexivity).
-  assert (Hnt : tis nx pit_Text = false) by (unfold tis; destruct Hnx as [E|E]; rewrite E; reflexivity).
+  assert (Hnt : tis nx pit_Text = false) by (unfold tis; apply N.eqb_neq; exact Hnx).
   assert (Htt : tis t pit_Text = true) by (unfold tis; rewrite Ht; reflexivity).
   assert (Hld : tis t pit_LeftDelim = false) by (unfold tis; rewrite Ht; reflexivity).
   destruct (c_next_stream s2 nx l Hs2 Hi2) as (s2' & Hn2 & Hs2' & Hi2' & Hsb & Hib).
@@ -87,7 +87,7 @@ Qed.
 
 (* one iteration of itemList on a text item followed by a comment or by EOF *)
 Lemma text_iter pre t nx l f pos acc s : Forall is_comment pre -> t_typ t = pit_Text ->
-  (t_typ nx = pit_Comment \/ t_typ nx = pit_EOF) ->
+  t_typ nx <> pit_Text ->
   stream (c_p s) = pre ++ t :: nx :: l -> inv (c_p s) -> (length pre + 2 <= lf)%nat ->
   exists pos1 s5, stream (c_p s5) = nx :: l /\ inv (c_p s5) /\
     forall rt, rawtext_run (t_val t) (match pre with [] => false | _ => true end) (tis nx pit_Comment) = Ok rt ->
@@ -149,7 +149,7 @@ Proof.
       exists pos1, [], s'. rewrite app_nil_r. split; [exact Hrun|]. split; [constructor|]. cbn. symmetry. apply droppable_norm. exact Ed.
     + destruct Htx as (p & ->). set (t := {| t_typ := itemText; t_pos := p; t_val := x |}) in *. cbn [app] in *.
       destruct f as [|f']; [cbn in Hf; lia|].
-      destruct (text_iter pre t e [] f' pos acc s Hpre eq_refl (or_intror He') Hs Hi ltac:(rewrite app_length in Hlf; cbn in Hlf; lia))
+      destruct (text_iter pre t e [] f' pos acc s Hpre eq_refl ltac:(rewrite He'; discriminate) Hs Hi ltac:(rewrite app_length in Hlf; cbn in Hlf; lia))
         as (pos1 & s5 & Hs5 & Hi5 & Hrun).
       assert (Hce : tis e pit_Comment = false) by (unfold tis; rewrite He'; reflexivity).
       specialize (Hrun (normalize (flag pre) false x)). rewrite Hce in Hrun. specialize (Hrun (rawtext_run_spec x (flag pre) false Hnx)).
@@ -174,7 +174,7 @@ Proof.
       destruct pre; reflexivity.
     + destruct Htx as (p & ->). set (t := {| t_typ := itemText; t_pos := p; t_val := x' |}) in *. cbn [app] in *.
       destruct f as [|f']; [cbn in Hf; lia|].
-      destruct (text_iter pre t c items' f' pos acc s Hpre eq_refl (or_introl Hc') Hs Hi ltac:(rewrite app_length in Hlf; cbn in Hlf; lia))
+      destruct (text_iter pre t c items' f' pos acc s Hpre eq_refl ltac:(rewrite Hc'; discriminate) Hs Hi ltac:(rewrite app_length in Hlf; cbn in Hlf; lia))
         as (pos1 & s5 & Hs5 & Hi5 & Hrun).
       assert (Hcc : tis c pit_Comment = true) by (unfold tis; rewrite Hc'; reflexivity).
       specialize (Hrun (normalize (flag pre) true x')). rewrite Hcc in Hrun. specialize (Hrun (rawtext_run_spec x' (flag pre) true Hnx')).
